@@ -225,6 +225,16 @@ def rule_merge(ck: Check, repo: Repo, rid: str = "R3") -> None:
             return
         raise AnalysisError("merge_copyright_lines: unrecognised structure (expected a parse loop and a per-line output loop)")
     parse_loop, out_loop = loops
+    # the model below is written for an output loop that walks the parsed notices themselves (`for line_info in copyright_in`) and
+    # re-collects the notices of the same holder; an output loop over something else (the distinct statements, a grouping
+    # dictionary) is another algorithm - not decided
+    out_it = ast.unparse(out_loop.iter)
+    collected = [st.targets[0].id for st in parse_loop.body if False] or [
+        c.func.value.id for c in ast.walk(parse_loop) if isinstance(c, ast.Call) and isinstance(c.func, ast.Attribute) and c.func.attr == "append"
+        and isinstance(c.func.value, ast.Name)]
+    if not collected or out_it not in (collected[0], f"sorted({collected[0]})", f"list({collected[0]})"):
+        raise AnalysisError(f"merge_copyright_lines: the output loop walks `{out_it[:60]}`, not the parsed notices: another merge algorithm than the one"
+                            " this rule models (shape not enumerated)")
     # parse loop: every input line is examined, first matching pattern, the three groups are kept
     it = ast.unparse(parse_loop.iter)
     r.instance("parse-loop", {"iter": it})
